@@ -1,3 +1,4 @@
+import Driver.Adapters
 import Driver.ContextManager
 import Driver.ExitStack
 import Driver.GroupBy
@@ -11,6 +12,7 @@ def dispatch (j : Json) : Except String Json := do
   | "groupby" => Drv.GroupBy.run j
   | "tool" => Drv.Tools.run j
   | "contextmanager" => Drv.ContextManager.run j
+  | "adapters" => Drv.Adapters.run j
   | _ => throw s!"unknown machine {m}"
 
 partial def loop (h : IO.FS.Stream) (out : IO.FS.Stream) : IO Unit := do
